@@ -57,7 +57,7 @@ func Judge(prop string, p *sdl.Program, cfg map[string]string, runs []*Obs) []Vi
 		perRun(func(o *Obs) []Violation { return w.CheckNarrowing(out, o) })
 	case "C04":
 		perRun(func(o *Obs) []Violation {
-			return append(CheckRegistryTrace(o.Reg), w.CheckContinuation(out, o)...)
+			return append(append(CheckRegistryTrace(o.Reg), w.CheckContinuation(out, o)...), w.CheckEarlyOnce(o)...)
 		})
 	case "C05":
 		// (runs with an injected callback failure are judged too: once per creation attempt, and
